@@ -217,11 +217,19 @@ func cmdCoherence(args []string) {
 		ck(reflect.TypeOf(r.New().Interface()) == goT, "type:msgnew", name, "New() yields another Go type")
 		ck(!r.Type().Zero().IsValid() && r.Type().New().IsValid(), "type:validity", name, "")
 		ck(reflect.TypeOf(mt.New().Interface()) == goT && reflect.TypeOf(mt.Zero().Interface()) == goT, "type:registry-type", name, "")
+		// the Go type registered under this name must be the type generated for this message
+		ck(string(r.Descriptor().FullName()) == name, "type:wrong-go-type", name, fmt.Sprintf("registry maps %s to Go type %T, whose own descriptor is %s", name, m, r.Descriptor().FullName()))
+		if string(r.Descriptor().FullName()) != name {
+			continue
+		}
 		// Reset() and String() on values
 		for i := 0; i < *n; i++ {
 			d := g.Dynamic(md)
 			v := mt.New().Interface()
-			proj.Fill(proj.Impl(v), proj.Project(d.ProtoReflect(), proj.WrapNone), proj.WrapImpl)
+			if pn := catch(func() { proj.Fill(proj.Impl(v), proj.Project(d.ProtoReflect(), proj.WrapNone), proj.WrapImpl) }); pn != "" {
+				emit("goapi:panic", name, "cannot populate through struct reflection: "+pn)
+				break
+			}
 			pn := catch(func() {
 				if s, ok := v.(fmt.Stringer); ok {
 					txt := s.String()
